@@ -74,6 +74,16 @@ func verifStubClose(f *os.File) error {
 	return nil
 }
 
+// replaces os.Remove (a clean-up on a failure path may remove files): the file is gone from the model
+func verifStubRemove(name string) error {
+	verifTrace = append(verifTrace, "remove:"+name)
+	if _, ok := verifFS[name]; !ok {
+		return os.ErrNotExist
+	}
+	delete(verifFS, name)
+	return nil
+}
+
 func verifStubRename(from, to string) error {
 	verifTrace = append(verifTrace, "rename:"+from+">"+to)
 	if verifFS != nil {
